@@ -115,6 +115,26 @@ def run_inplace_scan():
             findings += o
     return {"files": len(rs), "callees": sorted(LAGGING_DECRYPTORS), "findings": findings, "errors": errors}
 
+# ---- third rule (C06): results of the wire-format / DER readers must not be ignored (a failed read leaves the window and
+# the outputs unchanged: the caller then loops forever or uses uninitialised outputs).  Print routines are excluded: their loops
+# run over lengths already validated as multiples of the element size.
+READERS = ["tls_uint8_from_bytes", "tls_uint16_from_bytes", "tls_uint24_from_bytes", "tls_uint32_from_bytes", "tls_array_from_bytes",
+           "tls_uint8array_from_bytes", "tls_uint16array_from_bytes", "tls_uint24array_from_bytes", "tls_ext_from_bytes", "tls_record_get_handshake",
+           "sm2_z256_point_from_octets", "sm2_z256_point_from_bytes", "x509_cert_from_der", "asn1_length_from_der", "asn1_sequence_from_der",
+           "asn1_integer_from_der_ex", "asn1_type_from_der", "asn1_any_from_der", "x509_cert_get_subject_public_key", "x509_certs_get_cert_by_index"]
+READER_EXCLUDED_FILES = ("src/tls_trace.c",)
+
+def run_reader_scan():
+    saved = list(FAIL_CLOSED)
+    try:
+        FAIL_CLOSED[:] = READERS
+        r = run_scan()
+    finally:
+        FAIL_CLOSED[:] = saved
+    r["findings"] = [f for f in r["findings"] if f["why"] == "result ignored" and f["file"] not in READER_EXCLUDED_FILES]
+    r["callees"] = READERS
+    return r
+
 def run_scan():
     src, _ = verif.cfg()
     os.makedirs(verif.WORKROOT, exist_ok=True)
